@@ -331,16 +331,23 @@ func (d *dataRun) wireCase(c DataCase, out map[string]interface{}) {
 	var usizes []uint32
 	if streamed {
 		up := pf(&rwBuf{r: &chunkReader{b: append([]byte(nil), stream...), sizes: chunks}, w: &bytes.Buffer{}})
-		for i, wm := range msgs {
+		// every frame is decoded into its own message, and the messages are compared only after the whole stream
+		// has been consumed: a decoded message must not change while later frames are decoded (no aliasing of
+		// a read buffer that the next frame reuses)
+		var held []socket.Message
+		for i := range msgs {
 			m := newRecvMsg()
 			if err := up.Unpack(m); err != nil {
 				out["err"] = fmt.Sprintf("unpack frame %d: %v", i, err)
 				return
 			}
-			for _, x := range keep(wm.diff(m)) {
+			held = append(held, m)
+			usizes = append(usizes, m.Size())
+		}
+		for i, wm := range msgs {
+			for _, x := range keep(wm.diff(held[i])) {
 				diffs = append(diffs, fmt.Sprintf("f%d:%s", i, x))
 			}
-			usizes = append(usizes, m.Size())
 		}
 		// the same stream decoded into ONE message object, Reset between frames, that has received a primer
 		// frame before (every field set, three metadata pairs): nothing of an earlier frame may show
